@@ -444,8 +444,10 @@ def run(chk):
     #    diagnostic) is computed for every TLC-enumerated behaviour and, in the quick tier, for the
     #    first 120 (thorough: 1500) random runs (the specification's big-step evaluation dominates the cost).
     nontriv = sum(nontrivial(pid, x) for x in runs)
-    cap = n_tlc if thorough else min(n_tlc, 450)        # quick tier: at most 450 TLC-enumerated behaviours get the (costly) DRIFT evaluation
-    nrd = 1500 if thorough else 120
+    # the DRIFT evaluation (TLC steps Lattice.DoMatch itself) dominates the cost: at most 450 (thorough: 1500)
+    # TLC-enumerated behaviours and 120 (thorough: 500) random runs get it
+    cap = min(n_tlc, 1500 if thorough else 450)
+    nrd = 500 if thorough else 120
     with_drift = runs[:cap] + runs[n_tlc:n_tlc + nrd]
     without = runs[cap:n_tlc] + runs[n_tlc + nrd:]
     parts = [(with_drift, {pid, 'DRIFT'}), (without, {pid})]
